@@ -149,16 +149,19 @@ ABSENT = Sym('absent')
 
 class ListObj:
     kind = 'list'
-    __slots__ = ('items', 'more', 'shared', 'origin')
+    __slots__ = ('items', 'more', 'shared', 'origin', 'source')
 
-    def __init__(self, items=(), more=False, shared=False, origin=None):
+    def __init__(self, items=(), more=False, shared=False, origin=None,
+                 source=None):
         self.items = tuple(items)
         self.more = more  # unknown further elements (summarised loop)
         self.shared = shared
         self.origin = origin
+        self.source = source  # term this list was built from (list(x))
 
     def same(self, o):
         return isinstance(o, ListObj) and self.more == o.more and \
+            self.source is o.source and \
             len(self.items) == len(o.items) and \
             all(same_value(a, b) for a, b in zip(self.items, o.items))
 
@@ -1382,7 +1385,13 @@ class Interp:
             elif d is None:
                 feasible = s.kn.assume(c)
         else:
-            elem = Sym('elem', loop_id, _as_term(iterable))
+            itv = _as_term(iterable)
+            if isinstance(itv, Ref):
+                ob_ = self.obj(s, itv)
+                if isinstance(ob_, ListObj) and ob_.source is not None \
+                        and not ob_.items:
+                    itv = ob_.source
+            elem = Sym('elem', loop_id, itv)
             self.assign(st.target, elem, s, frame)
         if not feasible:
             return info
